@@ -23,10 +23,10 @@ ASSUMPTIONS = ["'(?:.exe)' in the cmd token is read with an unescaped dot, as th
                "white space is compared token-wise only when the stray closing quote of the command token is repaired",
                "the span of the decoded child of a caret-obfuscated encoded command is C03's known finding, not judged here"]
 EXPECTED_WALL = {"quick": 40, "thorough": 400}
-REQUIRED = {"strip_carets_exhaustive": 900000, "strip_carets_calls_observed": 5000, "cmd_hits_judged": 50000,
-            "cmd_cut_at_paren_not_last_byte": 100, "cmd_stray_quote": 20, "ps_hits_judged": 5000, "ps_encoded": 500,
-            "ps_encoded_with_carets": 50, "ps_constructed_asserted": 300, "ps_plain:no-context": 50, "ps_plain:for-loop": 20,
-            "ps_plain:dquote": 50, "ps_plain:squote": 50}
+REQUIRED = {"strip_carets_exhaustive": 900000, "strip_carets_calls_observed": 625, "cmd_hits_judged": 6250,
+            "cmd_cut_at_paren_not_last_byte": 12, "cmd_stray_quote": 5, "ps_hits_judged": 625, "ps_encoded": 62,
+            "ps_encoded_with_carets": 6, "ps_constructed_asserted": 37, "ps_plain:no-context": 6, "ps_plain:for-loop": 5,
+            "ps_plain:dquote": 6, "ps_plain:squote": 6}
 
 
 def plan(tier, seed):
